@@ -163,7 +163,9 @@ class StatusTree:
         return []
 
     def pre_loaded(self):
-        return loaded(self)
+        """object invariant of ApplicationRules established by the status_formula setter (its only writer, proved by
+        post_single_expression): a stored tree is a single expression"""
+        return loaded(self) and implies(self._status_tree is not None, is_expression(self))
 
     def post_none_without_formula(self, result):
         return implies(self._status_tree is None, result is None)
@@ -213,7 +215,8 @@ class UpdateStatusFormula:
 
     def pre_formula_loaded(self):
         """call site (update): only called when rules.status_tree is truthy"""
-        return self.rules is not None and self.rules._status_tree is not None and loaded(self.rules)
+        return (self.rules is not None and self.rules._status_tree is not None and loaded(self.rules)
+                and is_expression(self.rules))     # invariant established by the status_formula setter
 
     def post_major(self):
         return implies(is_expression(self.rules),
@@ -305,7 +308,8 @@ class Update:
         return [field(self, '_state'), field(self, 'major_failure'), field(self, 'minor_failure')]
 
     def pre_rules(self):
-        return self.rules is not None and loaded(self.rules)
+        return (self.rules is not None and loaded(self.rules)
+                and implies(self.rules._status_tree is not None, is_expression(self.rules)))
 
     def pre_structure(self):
         return structure(self)
